@@ -531,7 +531,12 @@ unsigned int ares_dns_rr_get_ttl(const ares_dns_rr_t *rr)
   if (rr == NULL) {
     return 0;
   }
-  return rr->ttl;
+  /* A record handed out by the query cache has been sitting there for
+   * ttl_decrement seconds */
+  if (rr->parent->ttl_decrement > rr->ttl) {
+    return 0;
+  }
+  return rr->ttl - rr->parent->ttl_decrement;
 }
 
 static void *ares_dns_rr_data_ptr(ares_dns_rr_t *dns_rr, ares_dns_rr_key_t key,
